@@ -17,7 +17,7 @@ def define(M):
       "        # this forces to reload the glyph variation models when an instance is requested")
     # C09: composites of layer glyphs must follow into the sparse master
     M("C09", "composite_not_defined_at_component_locations", "Lib/ufo2ft/filters/decomposeComponents.py",
-      "            self.ensureCompositeDefinedAtComponentLocations(glyphName)\n", "            pass\n")
+      "        self.ensureCompositeDefinedAtComponentLocations(glyphName)\n", "")
     # C13: master list, union of the lib keys
     M("C13", "skip_list_from_first_master_lib_only", "Lib/ufo2ft/_compilers/baseCompiler.py",
       "                for ufo in ufo_or_ufos:\n                    self.skipExportGlyphs.update(",
@@ -52,4 +52,4 @@ def define(M):
       "                if subDocDefault is not None:\n                    pass")
     # C09: regression mutant of the repaired defect (flatten filter, sparse masters)
     M("C09", "flatten_ifilter_does_not_define_composite_at_sparse_locations", "Lib/ufo2ft/filters/flattenComponents.py",
-      "        self.ensureCompositeDefinedAtComponentLocations(glyphName)\n", "")
+      "            self.ensureCompositeDefinedAtComponentLocations(glyphName)\n", "            pass\n")
